@@ -698,6 +698,8 @@ def emit_fn(asm, unit, fs, src, canary):
             init, a, x, body = mm.group(1), mm.group(2), mm.group(3), mm.group(4).strip()
             if body.startswith('{') and body.endswith('}'):
                 body = body[1:-1].strip()
+                if ';' in body:
+                    body = '{ ' + body + ' }'      # a block of statements stays a block expression
             mp = re.match(r'(.*)\.map\(\s*\|\s*(\w+)\s*\|\s*(.*)\)\s*$', body, re.S)
             if mp:
                 body = f'match {mp.group(1).strip()} {{ Some({mp.group(2)}) => Some({mp.group(3).strip()}), None => None }}'
